@@ -49,7 +49,7 @@ def _lits(s):
     m = re.match(r"\s*<<(.*?)>>\s*=>\s*<<(.*?)>>\s*(#\d+|\*)?\s*$", s, re.S)
     if not m:
         raise ExtractError("bad rewrite directive: %r" % s)
-    return m.group(1), m.group(2), m.group(3)
+    return m.group(1).replace("\\n", "\n"), m.group(2).replace("\\n", "\n"), m.group(3)
 
 
 def _anchor(s):
@@ -60,11 +60,16 @@ def _anchor(s):
 
 
 class Unit:
-    def __init__(self, tmpl_path, canary=False):
+    def __init__(self, tmpl_path, canary=False, baseline=None):
         self.tmpl_path = tmpl_path
         self.canary = canary
+        # fingerprints of the items on the tree where this unit last verified: a rewrite or anchor
+        # that no longer applies is tolerated (recorded as "degraded") only for items whose text
+        # CHANGED since then - on unchanged text it is a stale sidecar and an error.
+        self.baseline = baseline or {}
+        self.cur_changed = False
         self.out = []        # list of (text_line, origin)
-        self.report = {"items": [], "rewrites": {}, "fuzzy_anchors": [], "canaries": []}
+        self.report = {"items": [], "rewrites": {}, "fuzzy_anchors": [], "canaries": [], "degraded": []}
         self._src = {}
 
     def src(self, rel):
@@ -172,8 +177,18 @@ class Unit:
         name = it["name"]
         raw = s.item_text(it)
         first = s.lineno(it["start"])
+        sha = hashlib.sha256(raw.encode()).hexdigest()
         self.report["items"].append({"kind": "fn", "file": rel, "name": name, "lines": [first, s.lineno(it["end"])],
-                                     "sha256": hashlib.sha256(raw.encode()).hexdigest()})
+                                     "sha256": sha})
+        key = "%s::%s" % (rel, name)
+        changed = key in self.baseline and self.baseline[key] != sha
+
+        def lost(msg):
+            """a declared rewrite / anchor does not apply: tolerated only on changed text"""
+            if changed:
+                self.report["degraded"].append({"fn": name, "what": msg})
+                return True
+            raise ExtractError("%s: fn %s: %s" % (rel, name, msg))
         sig = s.text[it["start"]:it["open"]]
         body = s.text[it["open"]:it["end"]]          # starts with '{'
         body_first = s.lineno(it["open"])
@@ -215,19 +230,23 @@ class Unit:
                 old, new, mode = _lits(arg)
                 c = body.count(old)
                 if c == 0:
-                    raise ExtractError("%s: fn %s: body rewrite %r not found" % (rel, name, old))
+                    lost("body rewrite %r not found" % old)
+                    continue
                 if mode == "*":
                     body = body.replace(old, new)
                     self.count("sub:%s=>%s" % (old, new), c)
                 else:
                     n = int(mode[1:]) if mode else 1
                     if not mode and c != 1:
-                        raise ExtractError("%s: fn %s: body rewrite %r hits %d (use #n or *)" % (rel, name, old, c))
+                        lost("body rewrite %r hits %d" % (old, c))
+                        body = body.replace(old, new)
+                        continue
                     idx = -1
                     for _ in range(n):
                         idx = body.find(old, idx + 1)
                     if idx < 0:
-                        raise ExtractError("%s: fn %s: body rewrite %r #%d not found" % (rel, name, old, n))
+                        lost("body rewrite %r #%d not found" % (old, n))
+                        continue
                     body = body[:idx] + new + body[idx + len(old):]
                     self.count("sub:%s=>%s" % (old, new))
             elif op == "private":
@@ -293,7 +312,8 @@ class Unit:
             ins = []
             for n, spec in loops.items():
                 if n > len(lps):
-                    raise ExtractError("%s: fn %s has %d loops, sidecar wants loop %d" % (rel, name, len(lps), n))
+                    lost("has %d loops, sidecar wants loop %d" % (len(lps), n))
+                    continue
                 ins.append((lps[n - 1][1], spec))
             # split rows at brace positions (from the end)
             for pos, spec in sorted(ins, key=lambda x: -x[0]):
@@ -333,10 +353,18 @@ class Unit:
             raise ExtractError("%s: fn %s: anchor %r lost" % (rel, name, anc))
 
         for (anc, nth), lines_, tl in befores:
-            k = find_anchor(anc, nth)
+            try:
+                k = find_anchor(anc, nth)
+            except ExtractError as e:
+                lost("anchor %r lost (ghost block skipped)" % anc)
+                continue
             rows[k:k] = [[x, ("sidecar", l)] for l, x in lines_]
         for (anc, nth), lines_, tl in afters:
-            k = find_anchor(anc, nth)
+            try:
+                k = find_anchor(anc, nth)
+            except ExtractError as e:
+                lost("anchor %r lost (ghost block skipped)" % anc)
+                continue
             rows[k + 1:k + 1] = [[x, ("sidecar", l)] for l, x in lines_]
 
         # top-of-body insertions: after the first row (which starts with '{')
